@@ -231,20 +231,15 @@ def flow_safety_threshold(prog: Program, rep, RID: str):
     # nested readers `def upper(u, v): value = G.edges[u, v][upperbound_attr]; return <value as a Python number>` stand for the subscript
     readers = {}
     for fd in [n for n in ast.walk(f.node) if isinstance(n, ast.FunctionDef) and n is not f.node and len(n.args.args) == 2]:
-        # a reader: every return value is G.edges[p0, p1][A], possibly as `.item()` of it (one attribute A)
-        fdefs = all_local_defs(fd)
-        attrs = set()
+        # a reader: the only access to the graph is G.edges[p0, p1][A] (one attribute A) and everything else in the function converts that value
+        # (`.item()`, Fraction / int / float, isinstance / hasattr tests): it returns the value of the attribute as a number
+        subs = {norm(n.slice) for n in ast.walk(fd) if isinstance(n, ast.Subscript) and norm(n.value) == f"G.edges[{fd.args.args[0].arg}, {fd.args.args[1].arg}]"}
+        other_graph = [n for n in ast.walk(fd) if isinstance(n, ast.Attribute) and norm(n) .startswith("G.") and norm(n) != "G.edges"]
+        calls_ok = all((dotted(c_.func) in ("Fraction", "fractions.Fraction", "int", "float", "isinstance", "hasattr")) or
+                       (isinstance(c_.func, ast.Attribute) and c_.func.attr == "item" and not c_.args) for c_ in ast.walk(fd) if isinstance(c_, ast.Call))
         rets_ = [r for r in ast.walk(fd) if isinstance(r, ast.Return) and r.value is not None]
-        for r in rets_:
-            v = _PlainNumber().visit(ast.parse(norm(substitute_locals(r.value, fdefs)), mode="eval").body)
-            if isinstance(v, ast.Call) and isinstance(v.func, ast.Attribute) and v.func.attr == "item" and not v.args:
-                v = v.func.value
-            if isinstance(v, ast.Subscript) and norm(v.value) == f"G.edges[{fd.args.args[0].arg}, {fd.args.args[1].arg}]":
-                attrs.add(norm(v.slice))
-            else:
-                attrs.add(None)
-        if rets_ and len(attrs) == 1 and None not in attrs:
-            readers[fd.name] = attrs.pop()
+        if len(subs) == 1 and not other_graph and calls_ok and rets_ and not any(isinstance(n, (ast.BinOp, ast.AugAssign)) for n in ast.walk(fd)):
+            readers[fd.name] = next(iter(subs))
 
     class _Readers(ast.NodeTransformer):
         def visit_Call(self, node):
@@ -256,70 +251,129 @@ def flow_safety_threshold(prog: Program, rep, RID: str):
     def canon(e):
         e = ast.parse(norm(substitute_locals(e, defs)), mode="eval").body
         return _PlainNumber().visit(_Readers().visit(e))
+    # names that hold the tolerance are kept as names (they are classified below, not expanded)
+    for nm_ in [k for k in list(defs) if re.search(r"toler|eps", k)]:
+        defs.pop(nm_, None)
     left = canon(t.left)
     right = canon(t.comparators[0])
     P = to_poly(left) - to_poly(right)
     c = P.coeff(("inexact_excess",))
     op = t.ops[0]
-    # a tolerance: `excess <= eps` with 0 <= eps <= 1e-6 stands for `excess <= 0` on floats (an exact 0 comes out as 5.55e-17)
-    eps = P.coeff(())
+    # ---- the tolerance the excess is compared with
+    # Float values meant as decimal numbers are each off by up to half a unit in the last place, and (unless the arithmetic is exact) every
+    # addition adds as much: a zero excess comes out as 5.55e-17 for values around 0.1 and as 2e-9 .. 7e-9 for values around 1e7.  So neither
+    # 0 nor a constant is a valid threshold for "excess is positive"; the tolerance has to scale with the magnitude of the values
+    # (math.ulp / spacing / epsilon of the largest value), and may be 0 only in the case that all values are integral.
     exact_numbers = "Fraction" in " ".join(norm(x) for x in f.node.body)
-    tolerance = eps != 0 and c != 0 and 0 < -eps / c <= 1e-6
-    if tolerance:
-        from sa.poly import Poly
-        P = P - Poly.const(eps)
-    elif eps != 0:
-        raise AnalysisError(f"flow-safe paths: the stop test `{norm(t)}` compares the excess with {-eps / c if c else eps}, not with 0 (or a tolerance <= 1e-6)")
+
+    def classify_tolerance(e):
+        """'zero' | 'absolute' | 'scaled' | None for a constant / a name defined in this function"""
+        if isinstance(e, ast.Constant) and isinstance(e.value, (int, float)):
+            return "zero" if e.value == 0 else ("absolute" if 0 < e.value else None)
+        if isinstance(e, ast.Name):
+            kinds = set()
+            for st in ast.walk(f.node):
+                if isinstance(st, ast.Assign) and any(isinstance(t_, ast.Name) and t_.id == e.id for t_ in st.targets):
+                    def kinds_of(v):
+                        if isinstance(v, ast.Constant) and isinstance(v.value, (int, float)):
+                            return {"zero" if v.value == 0 else "absolute"}
+                        if isinstance(v, ast.IfExp):
+                            return kinds_of(v.body) | kinds_of(v.orelse)
+                        if re.search(r"\b(ulp|spacing|epsilon|nextafter)\b", norm(v)):
+                            return {"scaled"}
+                        return {"other"}
+                    kinds |= kinds_of(st.value)
+            if not kinds or "other" in kinds:
+                return None
+            if "scaled" in kinds:
+                return "scaled" if kinds <= {"scaled", "zero"} else None
+            return "absolute" if "absolute" in kinds else "zero"
+        return None
+
+    from sa.poly import Poly
+    stop_kind = None
+    for a in sorted(P.atoms()):
+        if re.fullmatch(r"\w+", a) and a != "inexact_excess":
+            k_ = classify_tolerance(ast.Name(id=a, ctx=ast.Load()))
+            if k_ is not None:
+                stop_kind = k_
+                P = P - Poly.atom(a) * Poly.const(P.coeff((a,)))
+    eps = P.coeff(())
+    if eps != 0:
+        if c != 0 and -eps / c > 0 and stop_kind is None:
+            stop_kind = "absolute"
+            P = P - Poly.const(eps)
+        else:
+            raise AnalysisError(f"flow-safe paths: the stop test `{norm(t)}` compares the excess with {-eps / c if c else eps}, not with 0 or a tolerance")
+    elif stop_kind is None:
+        stop_kind = "zero"
     # expected: excess + U(next) - sum of U over the out-edges of the current node
     atoms = sorted(a for a in P.atoms() if a != "inexact_excess")
     shape = c != 0 and len(atoms) == 2 and any(a.startswith("sum(") and "out_edges(path[R])" in a for a in atoms) and \
         any("path[R], path[R + 1]" in a and "upperbound_attr" in a for a in atoms)
-    # the report of a window is guarded by a positive excess (a one-edge window whose lower bound is 0 is in no decomposition path)
+    if not shape:
+        raise AnalysisError(f"flow-safe paths: stop test `{norm(t)}` has normal form `{P!r}` - not the excess-flow expression")
+    # ---- the report of a window is guarded by a positive excess (a one-edge window whose lower bound is 0 is in no decomposition path)
     reports = [st for st in ast.walk(f.node) if isinstance(st, ast.If) and "path_not_suffix_of_previous" in norm(st.test) and
                any("safe_paths" in norm(x) for x in st.body)]
     if len(reports) != 1:
         raise AnalysisError("flow-safe paths: the statement that reports a window was not found")
     rt = norm(reports[0].test)
-    m_ = re.search(r"inexact_excess > ([0-9.e+-]+)", rt)
-    mge = re.search(r"inexact_excess >= ([0-9.e+-]+)", rt) or re.search(r"inexact_excess (!=) 0\b", rt)
-    if mge and (mge.group(1) == "!=" or float(mge.group(1)) <= 0):
-        rep.violation(RID, key + ":report", f"a window is reported under `{rt}`, i.e. also when its excess flow is 0: a path with excess 0 is avoided by some flow decomposition "
-                      "(and a one-edge window whose lower bound is 0 is in no decomposition path)", f.loc(reports[0]))
-        m_ = None
-    elif mge and 0 < float(mge.group(1)) <= 1e-6:
-        m_ = mge      # `>= eps` is `> eps` up to the tolerance
-        rep.ok(RID, key + ":report", f"a window is reported only with positive excess (`{rt}`)", f.loc(reports[0]))
-    elif m_ and float(m_.group(1)) == 0 and not exact_numbers:
-        rep.violation(RID, key + ":float-zero", f"a window is reported when its excess is `> 0` exactly: the excess is a running sum of the caller's (float) flow values, an excess "
-                      "that is 0 comes out as 5.55e-17 and the window is reported safe (flows 0.1 + 0.2 vs 0.3)", f.loc(reports[0]))
-    elif m_ and 0 <= float(m_.group(1)) <= 1e-6:
-        rep.ok(RID, key + ":report", f"a window is reported only with positive excess (`{rt}`)", f.loc(reports[0]))
-    elif "inexact_excess" not in rt:
+    rcmp = [n for n in ast.walk(reports[0].test) if isinstance(n, ast.Compare) and len(n.ops) == 1 and norm(n.left) == "inexact_excess"]
+    report_kind, report_op = None, None
+    if rcmp:
+        report_kind, report_op = classify_tolerance(rcmp[0].comparators[0]), rcmp[0].ops[0]
+    report_guarded = False
+    if "inexact_excess" not in rt:
         rep.violation(RID, key + ":report", f"a window is reported under `{rt}` whatever its excess is: the initial one-edge window has excess = lower bound of the edge, "
                       "so an edge with lower bound 0 is reported safe although the flow that puts 0 on it has a decomposition avoiding it", f.loc(reports[0]))
-    else:
+    elif not rcmp or report_kind is None or not isinstance(report_op, (ast.Gt, ast.GtE, ast.NotEq)):
         raise AnalysisError(f"flow-safe paths: report condition `{rt}` not understood")
+    elif report_kind == "zero" and isinstance(report_op, (ast.GtE, ast.NotEq)):
+        rep.violation(RID, key + ":report", f"a window is reported under `{rt}`, i.e. also when its excess flow is 0: a path with excess 0 is avoided by some flow decomposition "
+                      "(and a one-edge window whose lower bound is 0 is in no decomposition path)", f.loc(reports[0]))
+    elif report_kind == "zero":
+        rep.violation(RID, key + ":float-zero", f"a window is reported when its excess is `> 0` exactly: the excess is a sum of the caller's (float) flow values, an excess "
+                      "that is 0 as a decimal number comes out as 5.55e-17 and the window is reported safe (flows 0.1 + 0.2 vs 0.3)", f.loc(reports[0]))
+    elif report_kind == "absolute":
+        rep.violation(RID, key + ":absolute-tolerance", f"a window is reported when its excess exceeds the constant in `{rt}`: the rounding noise of the excess grows with the "
+                      "values (one unit in the last place at 1e7 is 1.9e-9), so for flows around 1e7 a zero excess evaluates to 2e-9 .. 7e-9 and the window is reported safe "
+                      "(u->v 10000000.6, v->w 20000000.2, v->wp 10000000.6, up->v 20000000.2, x1->up and x2->up 10000000.1: two unsafe paths, MinFlowDecomp with safety as "
+                      "subpath constraints returns 4 paths where 3 suffice)", f.loc(reports[0]))
+    else:
+        report_guarded = True
+        rep.ok(RID, key + ":report", f"a window is reported only with an excess above the rounding noise of the values (`{rt}`)", f.loc(reports[0]))
+    # ---- assertions on the running excess
+    for a_ in [n for n in ast.walk(f.node) if isinstance(n, ast.Assert) and "inexact_excess" in norm(n.test)]:
+        exact_cmp = isinstance(a_.test, ast.Compare) and norm(a_.test.left) == "inexact_excess" and isinstance(a_.test.ops[0], ast.Eq)
+        if exact_cmp and not exact_numbers:
+            rep.violation(RID, key + ":assert-exact", f"`{norm(a_)}` holds in exact arithmetic only: the float residue of the additions and subtractions (about 1e-16) fails it on "
+                          "ordinary one-decimal flows and AssertionError escapes from MinFlowDecomp.solve() / kFlowDecomp (0->1 1.5, 1->3 0.7, 1->2 0.8, ...)", f.loc(a_))
+        else:
+            rep.ok(RID, key + ":assert", f"`{norm(a_)[:70]}`" + (" (exact arithmetic)" if exact_cmp else ""), f.loc(a_))
     nonstrict = (c > 0 and isinstance(op, ast.LtE)) or (c < 0 and isinstance(op, ast.GtE))
     strict = (c > 0 and isinstance(op, ast.Lt)) or (c < 0 and isinstance(op, ast.Gt))
     # When a window is recorded only with positive excess (tolerance included), the recorded windows are exactly the windows of positive excess the
     # scan visits - whatever the stop test is: excess + rightdiff never increases along an extension (f(next) is one of the out-flows), so a window
     # extended too far is not recorded, and one extended too little is a shorter safe window.  The stop test then decides only *which* safe windows
     # are found (running time of the models, C05), not whether a recorded window is safe.
-    report_guarded = bool(m_) and 0 < float(m_.group(1)) <= 1e-6 or (bool(m_) and float(m_.group(1)) == 0 and exact_numbers)
-    if shape and report_guarded and (strict or nonstrict):
+    if report_guarded and (strict or nonstrict):
         rep.ok(RID, key, f"windows are recorded only with positive excess, so the stop test `{norm(t)}` decides only which safe windows are found", f.loc(hits[0]),
                sample={"stop_test": norm(t), "report_test": rt})
-    elif shape and nonstrict and not tolerance and not exact_numbers:
+    elif nonstrict and stop_kind == "zero":
         rep.violation(RID, key + ":float-zero", f"the stop test `{norm(t)}` compares the running excess with 0 exactly: with float flow values an excess that is 0 comes out as "
                       "5.55e-17, the window is extended and reported safe although its excess flow is 0", f.loc(hits[0]))
-    elif shape and nonstrict:
-        rep.ok(RID, key, "the extension stops when excess + f(next) - sum f(out-edges) <= 0: only strictly positive excess is reported safe", f.loc(hits[0]),
-               sample={"stop_test": norm(t), "normal_form": repr(P) + (" <= 0" if c > 0 else " >= 0")})
-    elif shape and strict:
+    elif nonstrict and stop_kind == "absolute":
+        rep.violation(RID, key + ":absolute-tolerance", f"the stop test `{norm(t)}` compares the running excess with a constant: below the rounding noise of values around 1e7, "
+                      "so windows with excess 0 are extended and reported safe", f.loc(hits[0]))
+    elif nonstrict:
+        rep.ok(RID, key, "the extension stops when excess + f(next) - sum f(out-edges) is within the rounding noise of 0: only positive excess is reported safe", f.loc(hits[0]),
+               sample={"stop_test": norm(t)})
+    elif strict:
         rep.violation(RID, key, f"the extension stops only when the excess becomes negative (`{norm(t)}`): a path whose excess flow is exactly 0 is reported as safe although a "
                       "flow decomposition avoiding it exists", f.loc(hits[0]))
     else:
-        raise AnalysisError(f"flow-safe paths: stop test `{norm(t)}` has normal form `{P!r}` - not the excess-flow expression")
+        raise AnalysisError(f"flow-safe paths: stop test `{norm(t)}` not understood")
 
 
 def slot_symmetry(prog: Program, rep, RID: str):
@@ -401,7 +455,7 @@ def scan_reads_python_numbers(prog: Program, rep, RID: str):
                     norm(node.value.slice) in ("upperbound_attr", "lowerbound_attr") and norm(node.targets[0]) == "inexact_excess":
                 raw.append(node)
     key = "compute_inexact_flow_decomp_safe_paths:python-numbers"
-    readers = [fd for fd in ast.walk(f.node) if isinstance(fd, ast.FunctionDef) and fd is not f.node and any(".item()" in norm(x) for x in ast.walk(fd) if isinstance(x, ast.Return))]
+    readers = [fd for fd in ast.walk(f.node) if isinstance(fd, ast.FunctionDef) and fd is not f.node and any(".item()" in norm(x) for x in ast.walk(fd) if isinstance(x, (ast.Return, ast.Assign)))]
     if raw:
         rep.violation(RID, key, f"the scan computes `{norm(raw[0])[:90]}` on the caller's scalars: with np.uint8/16/32/64 flow values a negative difference wraps around, the stop "
                       "test is never true and every greedy decomposition path is reported safe in full", f.loc(raw[0]))
